@@ -274,6 +274,13 @@ example :
 example : ∀ name ∈ impliedNames exDiamond, exDiamondAgg.canonical name = canon exDiamond name :=
   canonical_is_canon exDiamond_wf exDiamond_toposort exDiamond_agg
 
+/-- the kind conjuncts on `exGraph` (an explicit import `f`, an implicit interface import) and on
+    the diamond (two versions of one interface resolve to one instance import) -/
+example : AggHyp exGraph exAgg ∧ AggHyp exDiamond exDiamondAgg ∧
+    aggKind exDiamondAgg dI10 = some .instance ∧ aggKind exAgg ['f'] = some .func :=
+  ⟨aggHyp_holds exGraph_wf exGraph_toposort exGraph_agg exGraph_ifaceNamed,
+   aggHyp_holds exDiamond_wf exDiamond_toposort exDiamond_agg exDiamond_ifaceNamed, by decide, by decide⟩
+
 /-! #### `IfaceNamed` cannot be dropped (finding `enc-dependency-interface-shadows-import`)
 
   WIT worlds of the C03 harness: `old` imports `dep:t/t@1.0.0` and `test:usr/u` (which uses
